@@ -84,3 +84,18 @@ func TestGenOne(t *testing.T) {
 	fmt.Println(c.Cfg, len(c.Ops))
 	fmt.Print(opsString(c.Ops))
 }
+
+func TestDebugModel(t *testing.T) {
+	p := os.Getenv("VERIF_REPLAY")
+	if p == "" {
+		t.Skip()
+	}
+	c, _ := readCase(p)
+	ref := NewRefFS(func() int64 { return 0 }, 0o777)
+	for i, op := range c.Ops {
+		e := ref.Apply(op)
+		fmt.Printf("%d %s => %+v\n", i, op, e)
+	}
+	tr, m := ref.Tree()
+	fmt.Println(tr, m)
+}
